@@ -98,7 +98,7 @@ def gen_config(rnd, m):
     supplied = {n: rnd.randint(2, 9) for n in rnd.sample(declared, nsup)} if declared else {}
     # probing() on a tooled() function swaps in a variant for the probe's own captures, so
     # supply through overlays (no autotool) when everything is instrumented by tooled()
-    how = rnd.choice(["tweaking", "rewriting"] if instr == "tooled" else ["tweaking", "rewriting", "override"])
+    how = rnd.choice(["tweaking", "rewriting"] if instr == "tooled" else ["tweaking", "rewriting", "override", "item-override", "koverride"])
     specific = rnd.sample(names, min(len(names), rnd.randint(1, 3))) if instr == "specific" and names else []
     if instr == "specific" and m["undef_globals"] and rnd.random() < 0.4:
         specific.append(rnd.choice(m["undef_globals"]))
@@ -161,7 +161,17 @@ def run_config(mod, m, cfg, argi, events):
         if name in (cfg.get("bytag") or {}):
             ns.setdefault("tag", __import__("ptera").tag)
             sel = f"f > $v:@{cfg['bytag'][name]}"
-        if cfg["how"] == "override":
+        if cfg["how"] in ("item-override", "koverride") and name not in (cfg.get("bytag") or {}):
+            # the documented idioms written for the variable itself: probe["x"].override(v) and
+            # koverride(lambda x: v) - the variable has no value yet when they run
+            p = probing(sel, env=ns, overridable=True)
+            p.subscribe(lambda d: events.append(("shown-to-overridable-probe", repr(d))))
+            if cfg["how"] == "item-override":
+                p[name].override(val)
+            else:
+                p.koverride(eval(f"lambda {name}, **kw: _v", {"_v": val}))
+            cms.append(p)
+        elif cfg["how"] in ("override", "item-override", "koverride"):
             p = probing(sel, env=ns, overridable=True)
             # what the supplying probe itself is shown goes to `events` (scanned for the marker)
             p.subscribe(lambda d: events.append(("shown-to-overridable-probe", repr(d))))
